@@ -2644,6 +2644,42 @@ func stepWeightNeverDropped(c *Ctx, rule string, pkgs []string, floor int) {
 				judge(Leaves(ph, ph.Block()), ph.Type().String(), ph.Pos())
 			}
 		}
+		// the same choice written as stores to one field of a struct in different branches
+		type cell struct {
+			x ssa.Value
+			f int
+		}
+		byCell := map[cell][]*ssa.Store{}
+		var cells []cell
+		for _, b := range fn.Blocks {
+			for _, ins := range b.Instrs {
+				st, ok := ins.(*ssa.Store)
+				if !ok {
+					continue
+				}
+				fa, ok := st.Addr.(*ssa.FieldAddr)
+				if !ok || !isW(st.Val.Type().String()) {
+					continue
+				}
+				k := cell{fa.X, fa.Field}
+				if _, seen := byCell[k]; !seen {
+					cells = append(cells, k)
+				}
+				byCell[k] = append(byCell[k], st)
+			}
+		}
+		for _, k := range cells {
+			if len(byCell[k]) < 2 {
+				continue
+			}
+			var lvs []Leaf
+			for _, st := range byCell[k] {
+				for _, lf := range Leaves(st.Val, st.Block()) {
+					lvs = append(lvs, lf)
+				}
+			}
+			judge(lvs, byCell[k][0].Val.Type().String(), byCell[k][0].Pos())
+		}
 		// the same choice written as two returns of a helper
 		if res := fn.Signature.Results(); res.Len() == 1 && isW(res.At(0).Type().String()) {
 			var lvs []Leaf
@@ -2764,7 +2800,7 @@ func r9C16(c *Ctx) {
 // r9C15: R15.15 — a script belongs to group + kind.
 func r9C15(c *Ctx) {
 	p := c.Prog
-	c.Rule("R15.15", "a resource is rewritten by the script of its own group and kind", 2)
+	c.Rule("R15.15", "a resource is rewritten by the script of its own group and kind", 1)
 	fn := p.Func("pkg/trafficrouting/network/customNetworkProvider.customController.getLuaScript")
 	if fn == nil {
 		c.Unresolved("R15.15", "customController.getLuaScript")
